@@ -122,6 +122,9 @@ def cases(tier, seed):
         yield ('S', m)
     for m in families():
         yield ('F', m)
+    from . import rt
+    for m in rt.collision_models():
+        yield ('S', (m[0], ()))
     for rel in corpus_files(1000 if tier == 'quick' else None):
         yield ('X', rel)
     for m in sp.structures_upto(3 if tier == 'quick' else 4):
